@@ -81,7 +81,10 @@ def gen_timeline(rng, n, off_min, boundaries):
             if cand >= prev and (cand - prev) < 299 * DAY:
                 t = cand
         k = 0
-        while is_feb29(t, off_min) and k < 3:
+        # 29 February is kept only in logs that stay inside one year: "a 29 February message followed by a message of a later
+        # year" is the documented exclusion (Issue #245), and one *preceded* by a message of an earlier year is open known
+        # finding F-C11a
+        while is_feb29(t, off_min) and boundaries > 0 and k < 3:
             t += DAY
             k += 1
         out.append(t)
@@ -207,10 +210,29 @@ def run_case(seed, i, tier):
         rp = {"sources": mergecheck.sources_to_json(srcs), "opts": opts, "a": a, "b": b, "plan": plan.as_replay(tr).to_json(),
               "class": cls, "tz": "UTC"}
         cr.violations.append(Violation(cls, "tz-offset=%s bsz=%d window=%s sources=%s mtimes=%s: %s" % (
-            tzo, bsz, (a, b), merge.describe(srcs), [s.mtime for s in srcs], detail), rp))
+            tzo, bsz, (a, b), merge.describe(srcs), [s.mtime for s in srcs], detail), rp, known=known_for(cls, srcs)))
     cr.sample = {"argv": opts + [s.path for s in srcs], "sources": merge.describe(srcs), "mtimes": [s.mtime for s in srcs],
                  "expected_head": expected[:200].decode("latin-1")}
     return cr
+
+
+def feb29_after_earlier_year(srcs):
+    """the precondition of F-C11a: some file holds a 29 February message with a message of an earlier year before it"""
+    for s in srcs:
+        years = []
+        for m in s.msgs:
+            y, mo, d, *_ = world.civil(m.instant, m.off_min)
+            if mo == 2 and d == 29 and any(yy < y for yy in years):
+                return True
+            years.append(y)
+    return False
+
+
+def known_for(cls, srcs):
+    for kf in engine.load_known(PROP):
+        if kf["status"] == "open" and cls in kf["signature"].get("classes", []) and feb29_after_earlier_year(srcs):
+            return kf["id"]
+    return None
 
 
 def classes_of(rp):
@@ -234,7 +256,7 @@ RULE = ("one case = 1..3 year-less syslog-style logs written along a simulated t
         "stored plain / gz with header MTIME / gz with MTIME 0 / bz2 / xz / tar member, with simulated file and header "
         "mtimes (a stale outer mtime when the header carries the time), --tz-offset in 7 zones, optional window, seed-"
         "chosen block size, simulated program start; non-trivial = every run; distinct = scenario digest")
-ASSUMPTIONS = ["gaps between consecutive messages are < 300 days and 29 Feb is never generated (documented limitation, Issue #245)",
+ASSUMPTIONS = ["gaps between consecutive messages are under 300 days or 25..60 h short of a year; 29 February appears only in logs that stay within one year (Issue #245 exclusion; open known finding F-C11a)",
                "the modification time lies in the last message's year, at least two days before its end"]
 
 
